@@ -83,6 +83,11 @@ func validateRSAKeyIfPresent(key interface{}, encryptedKey *etree.Element) (*rsa
 	if !ok {
 		return nil, errors.New("expected key to be a *rsa.PrivateKey")
 	}
+	// a nil pointer, or a key without modulus or private exponent, passes the type
+	// assertion but cannot decrypt anything: it is dereferenced below and in crypto/rsa
+	if rsaKey == nil || rsaKey.N == nil || rsaKey.D == nil {
+		return nil, errors.New("expected key to be a *rsa.PrivateKey with a modulus and a private exponent")
+	}
 
 	// extract and verify that the public key matches the certificate
 	// this section is included to either let the service know up front
